@@ -1409,3 +1409,107 @@ def resume_kwargs_verdict(repo):
         if T in ("XL_BOMD", "KSA_XL_BOMD") and kw.get("xl_bomd_params") is not sent["xl_bomd_params"]:
             bad.append(f"engine type {T}: the checkpointed xl_bomd_params are not handed to the constructor")
     return (not bad, bad[0] if bad else "every engine type is rebuilt with its own class and with the checkpointed seqm_parameters, output, step offset, damping time and XL-BOMD parameters (interpreted resume)")
+
+
+# ------------------------------------------------------------------------------------------------------------------------------------------------
+# C17-R2: the fewest-switches selection of SurfaceHoppingDynamics._attempt_hop, decided by its values on a finite family of exact-rational requests
+# ------------------------------------------------------------------------------------------------------------------------------------------------
+def _hop_oracle(H, pop, active, draws):
+    """FSSH selection as documented: g_j = max(0, H[a, j] / max(pop_a, 1e-10)); rows whose sum exceeds one are renormalised; the target is the first state whose cumulative
+    probability reaches the draw, -1 when none does."""
+    import sympy as sp
+    out = []
+    for m in range(len(active)):
+        a = int(active[m])
+        den = max(pop[m][a], sp.Rational(1, 10 ** 10))
+        g = [max(sp.Integer(0), H[m][a][j] / den) for j in range(len(H[m][a]))]
+        s = sum(g)
+        if s > 1:
+            g = [x / s for x in g]
+        c, tgt = sp.Integer(0), -1
+        for j, x in enumerate(g):
+            c += x
+            if c >= draws[m]:
+                tgt = j
+                break
+        out.append(tgt)
+    return out
+
+
+def interpreted_hop_selection(repo, n_random=60, seed=11):
+    """Interpret SurfaceHoppingDynamics._attempt_hop (sa.npsym) on batches of three trajectories x three states with exact rational hop integrals, populations and draws, and
+    compare the selected targets with the documented fewest-switches rule.  The requests are designed so that every decision of the rule is exercised on both sides: negative
+    rates (clamp), row sums above and below one (renormalisation only above one), draws below the first / between two / above the last cumulative value, different active
+    states per trajectory (row isolation), and a batch without any hop (early exit).  Returns (ok, message, facts)."""
+    import random
+    import numpy as np
+    import sympy as sp
+    from .loader import AnalysisError
+    from .npsym import NpSym, Raised
+    nad = repo.mod("seqm/NonadiabaticDynamics.py")
+    fn = nad.func("SurfaceHoppingDynamics._attempt_hop")
+    R = sp.Rational
+    designed = [
+        # (H rows for the active state of each trajectory (other rows are decoys), populations of the active state, active states, draws, what it exercises)
+        ([[R(-3, 10), R(1, 2), R(1, 10)], [R(9, 10), R(8, 10), 0], [R(1, 10), R(1, 10), R(1, 10)]], [1, 1, 1], [0, 1, 2], [R(1, 4), R(7, 10), R(1, 2)],
+         "negative rate clamped / row sum above one renormalised / draw above the last cumulative value"),
+        ([[0, R(2, 5), R(1, 5)], [R(1, 5), 0, R(1, 5)], [R(3, 10), R(3, 10), 0]], [R(1, 2), R(1, 2), R(1, 2)], [0, 1, 2], [R(1, 2), R(3, 10), R(13, 10)],
+         "division by the active population (rates 0.8/0.4, 0.4/0.4, 0.6/0.6)"),
+        ([[0, R(1, 100), 0], [0, 0, R(1, 100)], [R(1, 100), 0, 0]], [1, 1, 1], [0, 1, 2], [R(1, 2), R(1, 2), R(1, 2)], "no trajectory hops"),
+        ([[0, R(3, 10), R(3, 10)], [R(3, 10), 0, R(3, 10)], [R(3, 10), R(3, 10), 0]], [1, 1, 1], [0, 1, 2], [R(3, 10), R(31, 100), R(6, 10)],
+         "draw equal to a cumulative value reaches it; row sum below one is not renormalised"),
+        ([[0, R(1, 2), R(1, 2)], [R(1, 2), 0, R(1, 2)], [R(1, 2), R(1, 2), 0]], [R(1, 10 ** 12), R(1, 10 ** 12), 1], [0, 1, 2], [R(99, 100), R(1, 100), R(99, 100)],
+         "vanishing active population is floored, not divided by"),
+    ]
+    rng = random.Random(seed)
+    cases = []
+    for rows, pa, act, dr, what in designed:
+        cases.append((rows, pa, act, dr, what))
+    for _ in range(n_random):
+        act = [rng.randrange(3) for _ in range(3)]
+        rows = [[R(rng.randint(-6, 12), rng.choice([7, 11, 13, 20])) for _ in range(3)] for _ in range(3)]
+        pa = [R(rng.randint(1, 20), 20) for _ in range(3)]
+        dr = [R(rng.randint(0, 99), 100) for _ in range(3)]
+        cases.append((rows, pa, act, dr, "random"))
+    facts = {"requests": 0, "draw_calls": set(), "hops": 0, "no_hops": 0}
+    for rows, pa, act, dr, what in cases:
+        nm, ns = 3, 3
+        H = np.empty((nm, ns, ns), dtype=object)
+        pop = np.empty((nm, ns), dtype=object)
+        for m in range(nm):
+            for i in range(ns):
+                for j in range(ns):
+                    # decoy rows: large rates that would hop at once if the wrong row were read
+                    H[m, i, j] = sp.sympify(rows[m][j]) if i == act[m] else R(7 + i + j, 3)
+                pop[m, i] = sp.sympify(pa[m]) if i == act[m] else R(1, 1000)
+        calls = []
+
+        def rand_stub(*a, **k):
+            calls.append((a, tuple(sorted(k))))
+            return np.array([sp.sympify(x) for x in dr], dtype=object)
+        selfns = types.SimpleNamespace(_active_states=np.array(act, dtype=np.int64), _hop_integral=H, populations=pop, _arange_cache={},
+                                       _get_arange=lambda fr, n, device=None, dtype=None: np.arange(int(n)))
+        I = NpSym(repo, stubs={"torch.rand": rand_stub, "torch.rand_like": lambda x, **k: rand_stub(x.shape[0], **k)})
+        try:
+            got = I.call_function(nad, fn, [selfns])
+        except Raised as e:
+            return False, f"_attempt_hop raises on a regular request ({what}): {e}", facts
+        got = [int(x) for x in np.asarray(got).reshape(-1)]
+        want = _hop_oracle(H.tolist(), pop.tolist(), act, [sp.sympify(x) for x in dr])
+        facts["requests"] += 1
+        facts["hops"] += sum(1 for x in want if x >= 0)
+        facts["no_hops"] += sum(1 for x in want if x < 0)
+        facts["draw_calls"].add(len(calls))
+        if len(calls) != 1:
+            return False, f"{len(calls)} uniform draws in one hop attempt (one draw per trajectory and attempt is the fewest-switches rule)", facts
+        a0 = calls[0][0]
+        if "generator" in calls[0][1]:
+            return False, "the hop draw uses a private generator (a seeded run is reproducible only through the global generator that the checkpoint captures)", facts
+        shp = a0[0] if a0 else None
+        shp = tuple(shp) if isinstance(shp, (tuple, list)) else (shp,)
+        if tuple(int(s) for s in shp) != (nm,):
+            return False, f"the uniform draw has shape {shp}, not one number per trajectory", facts
+        if got != want:
+            return False, (f"hop targets {got} differ from the fewest-switches rule {want} for active states {act}, rates {[[str(x) for x in r] for r in rows]}, "
+                           f"active populations {[str(x) for x in pa]}, draws {[str(x) for x in dr]} ({what})"), facts
+    return True, "", facts
